@@ -17,7 +17,7 @@ import (
 
 func init() {
 	register("C20",
-		"TMO-1: in Sent and Received every state change (field store, map update, delete, call of a function that mutates the TimeoutManager or a TimeoutBooster) is dominated by the false leg of the useStaticTimeout test; useStaticTimeout/resendTimeout are written only by the constructor, option closures and updateResendTimeoutUnsafe, which is called from Received only; the resend booster is built after all options ran, from the configured timeout. TMO-2: every value stored to resendTimeout / passed to resendBooster.Reset is proved >= minimumResendTimeout by interval analysis (guard + phi), default >= minimum as constants, boostCount only ever ++ or =0 and boostPercent only set from values guarded > 0. TMO-3: under the fact 'resent' Sent inserts no sample, deletes the sample of that sequence number / zeroes the SYN time; a fresh sample is recorded only under !resent; Received consumes (deletes/zeroes) the sample on the path that uses it and derives the new timeout from that sample only. TMO-4: Boost increments boostCount once per call and only past the frequency-limit test; the resend booster is constructed with the limit on. TMO-5: updateResendTimeoutUnsafe always resets the resend booster with the value it stored; Reset zeroes boostCount and replaces originalTimeout. TMO-7: every getter/setter of the TimeoutManager reads/writes the field or booster its name says (and the connection's setters forward to the matching one). TMO-6: the connection reports truthfully: sendPacket calls Sent(msg, isResend) with its own parameters after the successful transport send on every success path; the queue's retransmission callbacks (called from queue.resend only) report isResend = true and the first transmission in the send loop false; the receive loop reports every parsed packet before dispatching on its type; the handshakes report their SYN with the restart flag. TMO-3 also: the invalidation under resent is unconditional (no further condition such as the boost having taken effect) and keyed by the packet's own Seq. TMO-3 also: a sample is consumed only on legs reached from the type tests of the message that answers the sampled one (SYN time: SYN/SYNACK; DATA send time: ACK). Not decided: float32 rounding of the boost product; matching of a late duplicate ACK to the right sample.",
+		"TMO-1: in Sent and Received every state change (field store, map update, delete, call of a function that mutates the TimeoutManager or a TimeoutBooster) is dominated by the false leg of the useStaticTimeout test; useStaticTimeout/resendTimeout are written only by the constructor, option closures and updateResendTimeoutUnsafe, which is called from Received only; the resend booster is built after all options ran, from the configured timeout. TMO-2: every value stored to resendTimeout / passed to resendBooster.Reset is proved >= minimumResendTimeout by interval analysis (guard + phi), default >= minimum as constants, boostCount only ever ++ or =0 and boostPercent only set from values guarded > 0. TMO-3: under the fact 'resent' Sent inserts no sample, deletes the sample of that sequence number / zeroes the SYN time; a fresh sample is recorded only under !resent; Received consumes (deletes/zeroes) the sample on the path that uses it and derives the new timeout from that sample only. TMO-4: Boost increments boostCount once per call and only past the frequency-limit test; the resend booster is constructed with the limit on. TMO-5: updateResendTimeoutUnsafe always resets the resend booster with the value it stored; Reset zeroes boostCount and replaces originalTimeout. TMO-7: every getter/setter of the TimeoutManager reads/writes the field or booster its name says (and the connection's setters forward to the matching one). TMO-6: the connection reports truthfully: sendPacket calls Sent(msg, isResend) with its own parameters after the successful transport send on every success path; the queue's retransmission callbacks (called from queue.resend only) report isResend = true and the first transmission in the send loop false; the receive loop reports every parsed packet before dispatching on its type; the handshakes report their SYN with the restart flag. TMO-3 also: the invalidation under resent is unconditional (no further condition such as the boost having taken effect) and keyed by the packet's own Seq. TMO-3 also: a sample is consumed only on legs reached from the type tests of the message that answers the sampled one (SYN time: SYN/SYNACK; DATA send time: ACK). TMO-1 also: the static-timeout option is unconditional. TMO-6 also: on the boolean program over the restart flag of each handshake, every Sent(SYN) after the first sees resent == true. Not decided: float32 rounding of the boost product; matching of a late duplicate ACK to the right sample.",
 		[]string{"time.Time zero value / IsZero, map delete and lookup have their language semantics"},
 		runC20)
 }
@@ -237,6 +237,18 @@ func runC20(c *Checker) {
 		})
 		if setsStatic {
 			c.ok("TMO-2", key, instrPos(st), "static mode option (sets useStaticTimeout): the floor applies to adaptive mode")
+			// ... and it does so for every value: the option's two stores are unconditional (a static
+			// timeout that happens to equal the default must not leave the manager in adaptive mode)
+			uncond := len(factsAt(st.Block())) == 0
+			allInstrs(st.Parent(), func(in ssa.Instruction) {
+				if s2, ok := in.(*ssa.Store); ok {
+					if fa, ok := s2.Addr.(*ssa.FieldAddr); ok && structFieldOf(fa) == fStatic && len(factsAt(s2.Block())) != 0 {
+						uncond = false
+					}
+				}
+			})
+			c.decide(uncond, "TMO-1", "static option|"+fnName(st.Parent())+"|unconditional", instrPos(st), "useStaticTimeout = true and resendTimeout = value on every path",
+				"the static-timeout option does not always switch the manager to static mode: for some configured value the timeout is still recomputed from traffic")
 			continue
 		}
 		r := rg.At(st.Val, st.Block())
@@ -867,6 +879,14 @@ func ruleTMO6(c *Checker) {
 				}
 				walk(phi)
 				okk = hasFalse && hasTrue
+			}
+			// ... and exactly: every SYN that goes out after the first one of this handshake is reported
+			// as a retransmission, whichever way the code came back to the send (timeout, a repeated SYN
+			// of the client answered at once, ...) - decided on the boolean program over the flag variable
+			if isPhi {
+				why := flagAfterFirst(hf, ci, a[2])
+				c.decide(why == "", "TMO-6", hf.Name()+"|every SYN after the first is reported as resent", instrPos(ci), "explored all (sent before?, flag) states of the handshake: a second Sent always sees resent == true",
+					"a SYN that is sent again can be reported to the timeout manager as a first transmission ("+why+"): its answer is then used as a round-trip sample of a retransmitted packet and the handshake timeout is not boosted")
 			}
 			c.decide(okk, "TMO-6", hf.Name()+"|SYN reported with the restart flag", instrPos(ci), "Sent(SYN, resent): false for the first SYN, true after a restart",
 				"the handshake reports its SYN to the timeout manager with a constant resend flag: a retransmitted SYN's round trip is used as a sample (or no handshake sample is ever taken)")
